@@ -134,6 +134,30 @@ def classify(op, kind, A, B, what):
     return head + "aligned-members" + via
 
 
+def classify_seq(cont, op, o, A, B):
+    """a failing comparison of a result with its own operand.  If the same comparison of FRESH objects with the same bounds
+    fails as well, it is the plain finding of that comparison (same signature as the plain case); otherwise the failure hangs
+    on the identity / names of the operand's intervals."""
+    kind, detail, cmp, cr = o
+    name = "valueset" if cont == "v" else "dsis"
+    if cont == "d":
+        R = ("d", cr[1], [t for t in cr[2] if t[1] >= 0]) if cr[0] == "dsis" else ("s", cr[1])
+        if R[0] == "d" and isinstance(R[1], int) and R[2] and all(isinstance(t, tuple) for t in R[2]) or (R[0] == "s" and isinstance(R[1], tuple)):
+            for X, Y in ((R, A), (A, R)):
+                if X[0] != "d":
+                    continue
+                fresh = vs.ds_case_real(cmp, X, Y)
+                if vs.ds_oracle(cmp, X, Y, (), fresh):
+                    return classify(cmp, kind, X, Y, detail)
+    else:
+        R = ("v", cr[1], dict(cr[2]))
+        for X, Y in ((R, A), (A, R)):
+            fresh = vs.vs_real(cmp, X, Y)
+            if vs.vs_oracle(cmp, X, Y, (), fresh):
+                return classify(cmp, kind, X, Y, detail)
+    return "C23/%s/%s/%s/result-of-%s-shares-intervals-or-names-with-its-operand" % (name, cmp, kind, op)
+
+
 def gen_cases(ctx):
     rng = ctx.rng
     cases = []     # (container, op, A, B, extra)
@@ -238,6 +262,26 @@ def gen_cases(ctx):
                 cases.append(("v", op, A, B, ()))
                 if B[2] != A[2]:
                     cases.append(("v", op, B, A, ()))
+    # sequences: r = a OP b on ONE object a, then r cmp a (all ten comparisons on sets, == / != on value sets), both orders
+    al2, al3 = vsa.all_sis(2, aligned_only=True), vsa.all_sis(3, aligned_only=True)
+    for _ in range(ctx.pick(350, 8000)):
+        w = rng.choice([2, 3, 3])
+        pool = al2 if w == 2 else al3
+        A = ("d", w, rng.sample(pool, rng.choice([1, 1, 2, 3])))
+        B = ("s", rng.choice(pool)) if rng.random() < 0.7 else ("d", w, rng.sample(pool, rng.choice([1, 2])))
+        op = rng.choice(vs.SEQ_DS_OPS)
+        cases.append(("d", "seq_" + op, A, None if op in vs.DS_UN else B, ()))
+    for _ in range(ctx.pick(350, 8000)):
+        w = rng.choice([2, 3, 3, 4])
+        pool = al2 if w == 2 else (al3 if w == 3 else None)
+        pick = (lambda: rng.choice(pool)) if pool else (lambda: vsa.rand_si(rng, w, p_unaligned=0.0))
+        A = ("v", w, {r: pick() for r in rng.sample(REG, rng.choice([1, 1, 2, 3]))})
+        op = rng.choice(vs.SEQ_VS_OPS)
+        if op in vs.VS_OPS_SI or rng.random() < 0.3:
+            B = ("s", pick())
+        else:
+            B = rng.choice(related(A, pick))
+        cases.append(("v", "seq_" + op, A, B, ()))
     # bounded-exhaustive: every value set over two regions, each absent or one of five intervals; every ordered pair
     for w, five in ((3, [(3, 0, 1, 1), (3, 0, 5, 5), (3, 1, 2, 4), (3, 2, 1, 7), (3, 1, 6, 1)]),):
         opts = [None] + five
@@ -263,10 +307,12 @@ def run(ctx):
     lines, idx, reals = [], [], []
     per_op = collections.defaultdict(lambda: {"modelled": 0, "unmodelled": 0, "cases": 0})
     for i, (cont, op, A, B, ex) in enumerate(cases):
-        if cont == "d" and op != "eval" and op not in ("union", "widen", "udiv", "hull", "bk") and op not in vs.DS_RBIN and \
+        if cont == "d" and op != "eval" and op not in ("union", "widen", "udiv", "hull", "bk") and op not in vs.DS_RBIN and not op.startswith("seq_") and \
                 not (op == "intersection" and B[0] == "d"):
             line, real = ds_line(op, A, B, ex)
             lines.append(line); idx.append(i)
+        elif op.startswith("seq_"):
+            real = vs.seq_real(cont, op[4:], A, B)
         elif cont == "d":
             real = vs.ds_case_real(op, A, B, ex)
         else:
@@ -300,6 +346,11 @@ def run(ctx):
         if i not in modelled and not (cont == "d" and i in idx_set):
             per_op[name]["unmodelled"] += 1
         ctx.distinct((cont, op, str(A), str(B), ex))
+        if op.startswith("seq_"):
+            o = vs.seq_oracle(cont, op[4:], A, B, reals[i])
+            if o:
+                fails[classify_seq(cont, op[4:], o, A, B)].append((cont, op, A, B, ex, reals[i], o))
+            continue
         o = vs.ds_oracle(op, A, B, ex, reals[i]) if cont == "d" else vs.vs_oracle(op, A, B, ex, reals[i])
         if o:
             fails[classify(op, o[0], A, B, o[1])].append((cont, op, A, B, ex, reals[i], o))
@@ -326,6 +377,16 @@ def replay(ctx, obj):
             return ("d", X[1], [tuple(t) for t in X[2]])
         return ("s", tuple(X[1]))
     A, B, ex = fix(r["A"]), fix(r["B"]), tuple(r["extra"])
+    if r["op"].startswith("seq_"):
+        real = vs.seq_real(r["container"], r["op"][4:], A, B)
+        print("case:", r["container"], r["op"], A, B)
+        print("real code returns:", real)
+        o = vs.seq_oracle(r["container"], r["op"][4:], A, B, real)
+        if o:
+            print("VIOLATION property=C23 replay=(given)"); print("failure:", o[:2], "signature:", classify_seq(r["container"], r["op"][4:], o, A, B))
+            return 1
+        print("no failure on the current tree")
+        return 0
     real = vs.ds_case_real(r["op"], A, B, ex) if r["container"] == "d" else vs.vs_real(r["op"], A, B, ex)
     print("case:", r["container"], r["op"], A, B, ex)
     print("real code returns:", canon_str(real), "(recorded: %s)" % r.get("observed"))
